@@ -36,6 +36,8 @@ def p1_p5(prog, rep):
     if f is None:
         raise cdb.AnalysisBroken("anchor missing: events_run_internal")
 
+    if not rep.names(f, "r", "rc", "tv"):
+        return
     # ---- P1 -----------------------------------------------------------
     # state: (frozenset of queues observed empty, holder: which queue the variable r was last fetched from, tvok)
     def transfer(st, e):
@@ -301,6 +303,8 @@ def p4(prog, rep):
     can = u.func("events_immediate_cancel")
     if not (reg and get and can):
         raise cdb.AnalysisBroken("anchor missing in events_immediate.c")
+    if not (rep.names(reg, "prio") and rep.names(can, "prio")):
+        return
     ins = {}
     for f in u.funcs:
         if f.file != u.path:
